@@ -6,6 +6,10 @@ TRUST = ("x/tools go/ssa v0.29.0 lowering; /verif/engine VC generator and SMT pr
          "Go type+memory safety (no unsafe, no data races on verified state, 64-bit int); trusted-spec contracts on external functions listed in the evidence file; "
          "termination only where a decreases clause or a range loop is checked. ")
 claimed = {
+ "C02": ("proof", "Header.Unmarshal, Packet.Unmarshal, GetExtension, GetExtensionIDs for every byte string and every (used or fresh) receiver: all index/slice/nil/make obligations discharged with inductive invariants for the CSRC and extension loops, termination of the extension loop, header length inside the input, header+payload+padding = input length, payload and every extension value are sub-slices of the input (object identity and offsets), input bytes untouched (frame), fixed fields / CSRC list / extension profile / padding size determined by the input alone (no dependence on the receiver's previous state).",
+          "Not covered by a checked obligation: that the *list* of extension elements decoded into a reused receiver equals that of a fresh one (needs the RFC grammar as a spec function; the slice is reset and every element is proved to come from the input). Known finding recorded: reserved id 15 leaves the header length inside the extension block.", "§9 C02"),
+ "C11": ("proof", "VP8Packet.Unmarshal is proved against a descriptor specification written from the RFC 7741 diagram (pure functions for X/I/L/T/K/M, field offsets and descriptor length): every field equals the encoded bits for all flag combinations and field values, the returned bytes are the input after the descriptor, rejection exactly when the descriptor is cut short, nil rejected; IsPartitionHead is bit 4 of octet 0. VP8Payloader.Payload: inductive invariant and postconditions give fragment sizes (<= MTU, non-empty), S bit on the first fragment only, PID 0, picture-id form by value (7-bit below 128, 15-bit from 128) on every fragment, fragment payloads equal to consecutive windows of the frame, picture id advancing by one modulo 2^15; termination by a decreases clause.",
+          "The lossless statement is the conjunction of the payloader postconditions (fragment j carries bytes [j*m, ...) after a descriptor of vp8Hdr bytes) and the decoder contract (returns the bytes after the descriptor); the composition is not a separate lemma function. Precondition: pictureID < 2^15 (established by the payloader itself).", "§9 C11"),
  "C16": ("proof", "G711/G722 Payload carry an inductive loop invariant (consumed offset = len(out)*mtu; every fragment so far is a fresh slice of exactly mtu bytes equal to its input window) and postconditions: fragments concatenate to the input, all but the last have exactly MTU bytes, the last holds the 1..MTU remaining bytes, nil input or MTU 0 give none; termination by a decreases clause. Opus: one fresh fragment equal to the input; OpusPacket.Unmarshal passthrough / errNilPacket / errShortPacket; partition head and tail constant true. Unbounded in input length and MTU.",
           "No trusted contracts.", "§9 C16"),
  "C20": ("proof", "Header.Clone and Packet.Clone: every bool/integer field equal (quantified over the struct's field list from go/types, so a forgotten new field fails), CSRC/extension list/extension values/payload equal in length and contents and freshly allocated (or nil exactly when the original is nil), proved with an inductive invariant over the extension loop for any number of extensions. Independence (mutating one never changes the other) is the consequence that everything mutable reachable from the clone is fresh; that last step is an argument over the freshness postconditions, not a separate obligation.",
